@@ -250,6 +250,44 @@ def o6(h, st):
     idx = [d for d in range(2 ** n) if sum((d >> k) & 1 for k in range(0, n, 2)) == na and sum((d >> k) & 1 for k in range(1, n, 2)) == nb]
     e_sector = float(np.min(np.linalg.eigvalsh(Mf[np.ix_(idx, idx)])))
     h.check("sector ground-state energy retained", float(np.min(np.abs(ev_tap - e_sector))) < 1e-7, detail=f"sector {e_sector}, tapered min {float(np.min(ev_tap))}")
+    # the same tapering applied to OTHER operators: terms that anticommute with one, two, three ... of the symmetry generators must be dropped, commuting ones kept.
+    # Generators: read from the tapering function's closure (kernel, symplectic form [x | z]); commutation decided here by the symplectic product, term by term.
+    cells = {nm: c.cell_contents for nm, c in zip(tap.z2_taper.__code__.co_freevars, tap.z2_taper.__closure__ or ())}
+    kernel = cells.get("kernel")
+    if kernel is None or not hasattr(kernel, "binary"):
+        h.check("n/a: symmetry generators not exposed by this version of the tapering closure", True)
+        h.done()
+        return
+    gens = np.array(kernel.binary).astype(int)
+
+    def anticommuting_generators(word):
+        x = np.zeros(n, dtype=int)
+        z = np.zeros(n, dtype=int)
+        for q, p_ in word:
+            x[q] = 1 if p_ in "XY" else 0
+            z[q] = 1 if p_ in "ZY" else 0
+        return int(sum((int(np.sum(x & g[n:])) + int(np.sum(z & g[:n]))) % 2 for g in gens))
+    words = [((0, "X"), (1, "X")), ((0, "X"),), ((1, "Y"), (2, "X")), ((0, "Z"), (1, "Z")), ((0, "X"), (2, "X")), ((0, "Y"), (1, "Y")), ((0, "X"), (1, "X"), (2, "X")),
+             ((n - 1, "X"), (n - 2, "Y")), ((0, "Z"),), ((0, "X"), (n - 1, "X"))]
+    seen = set()
+    for word in words:
+        k = anticommuting_generators(word)
+        T = QubitOperator(word, 0.37)
+        op = QubitOperator()
+        op.terms = dict(H.terms)
+        op += T
+        top = h.call(TQ, "QubitTapering.z2_tapering", tap, op)
+        topq = top.qubitoperator if hasattr(top, "qubitoperator") else top
+        ev_t = np.linalg.eigvalsh(qubit_matrix(QubitOperator.from_openfermion(topq) if not isinstance(topq, QubitOperator) else topq, nt))
+        sym = QubitOperator()
+        sym.terms = dict(H.terms)
+        if k == 0:
+            sym += T
+        ev_s = np.linalg.eigvalsh(qubit_matrix(sym, n))
+        seen.add(min(k, 3))
+        h.check(f"tapering H + 0.37 * {word} (term anticommuting with {k} generator(s)): every eigenvalue belongs to H" + (" + the term" if k == 0 else " alone (the term is dropped)"),
+                all(np.min(np.abs(ev_s - e)) < 1e-7 for e in ev_t), detail=f"max distance {max(float(np.min(np.abs(ev_s - e))) for e in ev_t):.3e}")
+    h.check("the probe terms cover commuting terms and terms anticommuting with one and with two generators", {0, 1, 2} <= seen or len(gens) < 2, detail=str(seen))
     h.done()
 
 
